@@ -163,6 +163,10 @@ type Result struct {
 	Res  string `json:"res"` // ok | err | panic | hang
 	Err  string `json:"err,omitempty"`
 	Data M      `json:"data,omitempty"`
+	// what a DeliverTx response carries besides the code: gas consumed by the message (KV gas of every store
+	// access the handler made) and a digest of the events it emitted — compared between replicas by the twin run
+	Gas uint64 `json:"gas,omitempty"`
+	Ev  string `json:"ev,omitempty"`
 }
 
 // runTx emulates baseapp.runMsgs atomicity: cache context, recover panics as errors, write on success.
@@ -171,19 +175,30 @@ type Result struct {
 func (w *World) runTx(f func(ctx sdk.Context) (M, error)) Result {
 	ctx := w.C.Ctx()
 	cctx, write := ctx.CacheContext()
+	cctx = cctx.WithGasMeter(sdk.NewInfiniteGasMeter()).WithEventManager(sdk.NewEventManager())
 	done := make(chan Result, 1)
 	go func() {
 		defer func() {
 			if r := recover(); r != nil {
-				done <- Result{Res: "err", Err: fmt.Sprintf("panic: %v", r), Data: M{"panic": true, "stack": firstLines(string(debug.Stack()), 14)}}
+				done <- Result{Res: "err", Err: fmt.Sprintf("panic: %v", r), Data: M{"panic": true, "stack": firstLines(string(debug.Stack()), 14)}, Gas: cctx.GasMeter().GasConsumed()}
 			}
 		}()
 		data, err := f(cctx)
 		if err != nil {
-			done <- Result{Res: "err", Err: err.Error()}
+			done <- Result{Res: "err", Err: err.Error(), Gas: cctx.GasMeter().GasConsumed()}
 			return
 		}
-		done <- Result{Res: "ok", Data: data}
+		h := sha256.New()
+		for _, ev := range cctx.EventManager().Events() {
+			h.Write([]byte(ev.Type))
+			for _, a := range ev.Attributes {
+				h.Write(a.Key)
+				h.Write([]byte{0})
+				h.Write(a.Value)
+				h.Write([]byte{1})
+			}
+		}
+		done <- Result{Res: "ok", Data: data, Gas: cctx.GasMeter().GasConsumed(), Ev: hex.EncodeToString(h.Sum(nil)[:8])}
 	}()
 	select {
 	case r := <-done:
